@@ -927,6 +927,8 @@ def verify_convert(case, da, parent, pix_dims, tag=""):
     if "energy" in g:
         labs.append("E:" + g["energy"]["name"] + ":" + g["energy"]["dtype"]
                     + (":per-pixel" if g["energy"]["per_pixel"] else ""))
+    if n:
+        labs.append("events-compared")
     if n and target in out.bins.coords:
         vals = np.asarray(out.bins.constituents["data"].coords[target].values)
         if vals.dtype.kind == "f" and np.isnan(vals).any():
@@ -935,6 +937,246 @@ def verify_convert(case, da, parent, pix_dims, tag=""):
     mixed = bool((s == 0).any() and (s > 0).any())
     nontrivial = n > 0 and (mixed or case["evdtype"] != "float64" or len(da.dims) == 2)
     return labs, nontrivial
+
+
+# ------------------------------------------------------------------ histories: convert, change in place, convert again
+
+
+def history_candidates(case):
+    """Geometry coordinates of the object that may be changed in place between conversions, with dtypes."""
+    g = case["geometry"]
+    e = g.get("energy")
+    if g["mode"] == "derived":
+        names = ["L1", "L2"] if e is not None else ["Ltotal", "two_theta"]
+        dtypes = {k: g["geo_dtype"] for k in names}
+    elif g["mode"] == "positions":
+        names = ["position", "source_position", "sample_position"]
+        dtypes = {k: "vector3" for k in names}
+    else:
+        names = ["position", "source_position"]
+        dtypes = {k: "vector3" for k in names}
+    if e is not None:
+        names = [*names, e["name"], e["name"]]
+        dtypes[e["name"]] = e["dtype"]
+    return names, dtypes
+
+
+@st.composite
+def history_cases(draw):
+    case = draw(convert_cases(draw(st.sampled_from([True, True, False]))))
+    names, dtypes = history_candidates(case)
+    case["history"] = draw(st.lists(mutation_step(names, dtypes), min_size=1, max_size=2))
+    return case
+
+
+def check_history(case):
+    da, parent, pix_dims = build_input(case)
+    labs, _ = verify_convert(case, da, parent, pix_dims, tag="conversion 1: ")
+    compared = False
+    for k, step in enumerate(case["history"]):
+        # the coordinate of the very object that was converted before is changed in its own buffer
+        # (a slice sees the change through its parent)
+        mutate_in_place(parent.coords[step["name"]], step)
+        labs, _ = verify_convert(case, da, parent, pix_dims,
+                                 tag=f"conversion {k + 2} after in-place change of {step['name']}: ")
+        compared = "events-compared" in labs
+        labs.append("history:in-place:" + step["name"])
+    labs.append(f"history:{len(case['history']) + 1}-conversions")
+    return labs, compared
+
+
+# ------------------------------------------------------------------ very large event lists
+
+LARGE_PATTERN = [0, 2, 1, 1, 1, 1, 1]   # bin-size multipliers cycled over the pixels: empty, double, single
+LARGE_NPIX = [1001, 1003, 997, 701, 1501, 2003, 1000, 1024]
+LARGE_TARGETS = ["wavelength", "wavelength", "dspacing", "Q", "energy", "energy_transfer"]
+LARGE_MIN_EVENTS = 2**21
+_M64 = 2**64
+
+
+def uniform01(n, seed, stream):
+    """n reproducible numbers in [0, 1): splitmix64 of (counter, seed, stream) in wrapping uint64 arithmetic;
+    no generator state, no numpy.random."""
+    start = (seed * 0x9E3779B97F4A7C15 + (stream + 1) * 0xD1B54A32D192ED03) % _M64
+    z = np.arange(n, dtype=np.uint64) * np.uint64(0x9E3779B97F4A7C15) + np.uint64(start)
+    z ^= z >> np.uint64(30)
+    z *= np.uint64(0xBF58476D1CE4E5B9)
+    z ^= z >> np.uint64(27)
+    z *= np.uint64(0x94D049BB133111EB)
+    z ^= z >> np.uint64(31)
+    return (z >> np.uint64(11)).astype(np.float64) * 2.0**-53
+
+
+def large_sizes(npix, shift, per):
+    return per * np.asarray(LARGE_PATTERN, dtype=np.int64)[(np.arange(npix) + shift) % len(LARGE_PATTERN)]
+
+
+@st.composite
+def large_cases(draw):
+    npix = draw(st.sampled_from(LARGE_NPIX))
+    shift = draw(st.integers(0, len(LARGE_PATTERN) - 1))
+    total = draw(st.integers(LARGE_MIN_EVENTS + 1, 3_400_000))
+    summult = sum(LARGE_PATTERN[(i + shift) % len(LARGE_PATTERN)] for i in range(npix))
+    evdtype = draw(st.sampled_from(["float64", "float64", "float32", "int64", "int32"]))
+    target = draw(st.sampled_from([t for t in LARGE_TARGETS if not (evdtype == "int32" and t == "energy")]))
+    return {"npix": npix, "shift": shift, "per": -(-total // summult), "seed": draw(st.integers(0, 2**32 - 1)),
+            "order": draw(st.sampled_from(["identity", "identity", "reversed"])),
+            "target": target, "evdtype": evdtype,
+            "variances": draw(st.booleans()), "evmask": draw(st.booleans()),
+            "energy": draw(st.sampled_from(["incident_energy", "final_energy"]))
+            if target == "energy_transfer" else None}
+
+
+def build_large(case):
+    """Vectorised construction of a 1-d pixel grid with millions of events from the seed in the case."""
+    import scipp as sc
+
+    npix, seed = case["npix"], case["seed"]
+    sizes = large_sizes(npix, case["shift"], case["per"])
+    if case["order"] == "identity":
+        end = np.cumsum(sizes)
+        begin = end - sizes
+    else:   # the bins sit in the buffer in reversed order
+        e = np.cumsum(sizes[::-1])
+        begin, end = (e - sizes[::-1])[::-1].copy(), e[::-1].copy()
+    n = int(sizes.sum())
+    tof = 2000.0 + 13000.0 * uniform01(n, seed, 0)                       # us, both sides of t0
+    tof = np.floor(tof).astype(case["evdtype"]) if case["evdtype"] in INT_DTYPES else tof.astype(case["evdtype"])
+    kw = {"variances": 0.1 + 0.1 * uniform01(n, seed, 2)} if case["variances"] else {}
+    buf = sc.DataArray(
+        sc.array(dims=[EVDIM], values=0.5 + uniform01(n, seed, 1), unit="counts", **kw),
+        coords={"tof": sc.array(dims=[EVDIM], values=tof, unit="us", dtype=case["evdtype"]),
+                "event_id": sc.array(dims=[EVDIM], values=np.arange(n, dtype=np.int64) * 7 + 3, unit=None)})
+    if case["evmask"]:
+        buf.masks["evmask"] = sc.array(dims=[EVDIM], values=uniform01(n, seed, 3) < 0.05)
+    ltotal = 20.0 + 5.0 * uniform01(npix, seed, 4)
+    coords = {
+        "L1": sc.scalar(18.0, unit="m"),
+        "L2": sc.array(dims=["spectrum"], values=ltotal - 18.0, unit="m"),
+        "Ltotal": sc.array(dims=["spectrum"], values=ltotal, unit="m"),
+        "two_theta": sc.array(dims=["spectrum"], values=0.2 + 2.3 * uniform01(npix, seed, 5), unit="rad"),
+        "detector_number": sc.array(dims=["spectrum"], values=np.arange(npix, dtype=np.int64) * 3 + 100, unit=None),
+        "temperature": sc.scalar(4.25, unit="K"),
+    }
+    if case["energy"] == "incident_energy":
+        coords["incident_energy"] = sc.scalar(25.0, unit="meV")
+    elif case["energy"] == "final_energy":
+        coords["final_energy"] = sc.array(dims=["spectrum"], values=3.0 + uniform01(npix, seed, 6), unit="meV")
+    binned = sc.bins(begin=sc.array(dims=["spectrum"], values=begin, unit=None),
+                     end=sc.array(dims=["spectrum"], values=end, unit=None), dim=EVDIM, data=buf)
+    masks = {"pixmask": sc.array(dims=["spectrum"], values=uniform01(npix, seed, 7) > 0.9)}
+    return sc.DataArray(binned, coords=coords, masks=masks)
+
+
+def event_index(begin, sizes):
+    """Buffer index of every event, bin after bin (row-major bins), vectorised."""
+    begin, sizes = np.asarray(begin).reshape(-1), np.asarray(sizes).reshape(-1)
+    start = np.cumsum(sizes) - sizes
+    return np.repeat(begin - start, sizes) + np.arange(int(sizes.sum()), dtype=np.int64)
+
+
+def check_large(case):
+    import scipp as sc
+    import scippneutron as scn
+
+    target = case["target"]
+    da = build_large(case)
+    name = f"tof->{target} ({case['npix']} pixels)"
+    snap = snap_dataarray(da)
+    in_coords = {k: da.coords[k].copy() for k in da.coords}
+
+    out = scn.convert(da, origin="tof", target=target, scatter=True)
+
+    input_unchanged(snap, da, name)
+    if out.bins is None:
+        raise Violation("bin-grid", f"{name}: result is not binned")
+    if tuple(out.dims) != snap["dims"] or tuple(out.shape) != snap["shape"]:
+        raise Violation("bin-grid", f"{name}: result dims {out.dims} {out.shape}, input {snap['dims']} "
+                                    f"{snap['shape']}")
+    inb, ob = snap["binned"], snap_binned(out.data)
+    size_in, size_out = inb["end"] - inb["begin"], ob["end"] - ob["begin"]
+    n = int(size_in.sum())
+    if int(size_out.sum()) != n:
+        raise Violation("bin-membership", f"{name}: {n} events in the bins of the input, {int(size_out.sum())} "
+                                          f"in the result")
+    if not np.array_equal(size_in, size_out):
+        k = int(np.flatnonzero(size_in != size_out)[0])
+        raise Violation("bin-membership", f"{name}: bin sizes changed, first at bin {k}: {int(size_in[k])} -> "
+                                          f"{int(size_out[k])}")
+    ii, io = event_index(inb["begin"], size_in), event_index(ob["begin"], size_out)
+    ibuf, obuf = inb["buffer"], ob["buffer"]
+    for k in ("unit", "dtype"):
+        if ibuf["data"][k] != obuf["data"][k]:
+            raise Violation("weights", f"{name}: weights {k} changed from {ibuf['data'][k]} to {obuf['data'][k]}")
+    if not bits_equal(ibuf["data"]["values"][ii], obuf["data"]["values"][io]):
+        raise Violation("weights", f"{name}: weights differ")
+    if (ibuf["data"]["variances"] is None) != (obuf["data"]["variances"] is None) or (
+            ibuf["data"]["variances"] is not None
+            and not bits_equal(ibuf["data"]["variances"][ii], obuf["data"]["variances"][io])):
+        raise Violation("weights", f"{name}: variances of the weights differ")
+    for k in ("event_id", "tof"):
+        if k == target:
+            continue
+        if k not in obuf["coords"]:
+            if k == "tof":
+                continue
+            raise Violation("event-coord-lost", f"{name}: event coordinate {k!r} lost")
+        a, b = ibuf["coords"][k], obuf["coords"][k]
+        if a["unit"] != b["unit"] or a["dtype"] != b["dtype"] or not bits_equal(a["values"][ii], b["values"][io]):
+            raise Violation("event-order", f"{name}: event coordinate {k!r} differs from the input (order or "
+                                           f"membership of the events changed)")
+    if sorted(ibuf["masks"]) != sorted(obuf["masks"]):
+        raise Violation("event-mask", f"{name}: event masks changed from {sorted(ibuf['masks'])} to "
+                                      f"{sorted(obuf['masks'])}")
+    for k in ibuf["masks"]:
+        if not bits_equal(ibuf["masks"][k]["values"][ii], obuf["masks"][k]["values"][io]):
+            raise Violation("event-mask", f"{name}: event mask {k!r} changed")
+    if target not in obuf["coords"]:
+        raise Violation("event-coord-missing", f"{name}: no event coordinate {target!r}; have "
+                                               f"{sorted(obuf['coords'])}")
+    # the dense kernels on the flat event table: every event next to the geometry of its pixel
+    flat = size_in.reshape(-1)
+    g = {}
+    for k, v in in_coords.items():
+        if k in ("detector_number", "temperature"):
+            continue
+        g[k] = sc.array(dims=[EVDIM], values=np.repeat(np.asarray(v.values), flat), unit=v.unit,
+                        dtype=v.dtype) if v.ndim else v.copy()
+    x_in = ibuf["coords"]["tof"]
+    x = sc.array(dims=[EVDIM], values=x_in["values"][ii], unit=x_in["unit"], dtype=x_in["dtype"])
+    ref = dense_chain("tof", target, x, geometry_of(g, True))
+    got = obuf["coords"][target]
+    if (got["unit"], got["dtype"]) != (ref.unit, str(ref.dtype)):
+        raise Violation("event-unit-dtype", f"{name}: event coordinate {target!r} is {got['dtype']} "
+                                            f"[{got['unit']}], dense kernels give {ref.dtype} [{ref.unit}]")
+    rv, gv = np.asarray(ref.values), got["values"][io]
+    if not bits_equal(rv, gv):
+        ui = {4: np.uint32, 8: np.uint64}[rv.dtype.itemsize]
+        bad = np.flatnonzero((rv.view(ui) != np.ascontiguousarray(gv).view(ui)) & ~(np.isnan(rv) & np.isnan(gv)))
+        k = int(bad[0])
+        raise Violation("event-value", f"{name}: {bad.size} of {n} events differ from the dense kernels, first "
+                                       f"event {k} (bin order): {gv[k]!r} vs {rv[k]!r}")
+    # masks and coordinates of the grid
+    if list(out.masks) != list(snap["masks"]):
+        raise Violation("mask", f"{name}: masks {list(out.masks)}, input {list(snap['masks'])}")
+    for k, m in snap["masks"].items():
+        if not snap_equal(m, snap_var(out.masks[k])):
+            raise Violation("mask", f"{name}: mask {k!r} changed")
+    for k, c in snap["coords"].items():
+        if k in ("detector_number", "temperature") and k not in out.coords:
+            raise Violation("coord", f"{name}: unrelated coordinate {k!r} lost")
+        if k in out.coords and k != target and not snap_equal(c, snap_var(out.coords[k])):
+            raise Violation("coord", f"{name}: coordinate {k!r} changed in the result")
+    labs = [f"target:tof->{target}", "ev:" + case["evdtype"], "order:" + case["order"],
+            f"npix:{case['npix']}", f"events:{n // 2**20}x2^20+",
+            "variances" if case["variances"] else "no-variances"]
+    if case["evmask"]:
+        labs.append("evmask")
+    if case["energy"]:
+        labs.append("E:" + case["energy"])
+    if rv.dtype.kind == "f" and np.isnan(rv).any():
+        labs.append("nan-events")
+    return labs, n >= LARGE_MIN_EVENTS and bool((flat == 0).any() and (flat > 0).any())
 
 
 # ------------------------------------------------------------------ enumerated layouts x grids x dtypes x targets
@@ -1361,6 +1603,11 @@ def check_gravity(case):
 # ------------------------------------------------------------------ facets
 
 FACETS = [
+    Facet("convert_large", check_large, strategy=lambda tier: large_cases(),
+          quick=(2, 3), thorough=(16, 6), shrink=False, min_nontrivial=0.5,
+          doc="scn.convert on 700..2000 pixels holding more than 2^21 events in total (empty, single and double "
+              "bins): all events against the dense kernels on the flat event table, bin sizes, event count, "
+              "weights, order, masks, coordinates, input untouched"),
     Facet("convert_elastic", check_convert, strategy=lambda tier: convert_cases(False),
           quick=(4, 400), thorough=(16, 1200), min_nontrivial=0.3,
           doc="scn.convert on binned data, elastic targets and no-scatter: events vs dense chain per bin, dense "
@@ -1374,6 +1621,11 @@ FACETS = [
     # index_pair, got (y,x)"). That is a loud refusal of a layout, raised inside scipp, not a wrong event
     # value; C06 speaks about the values of conversions that are carried out. The generator therefore
     # keeps geometry coordinates in the dim order of the data. See DESIGN.md "False alarms corrected".
+    Facet("convert_history", check_history, strategy=lambda tier: history_cases(),
+          quick=(2, 250), thorough=(16, 500), min_nontrivial=0.3,
+          doc="scn.convert, then L1/L2/Ltotal/two_theta/positions/incident_energy/final_energy of the same object "
+              "changed in place, then scn.convert again (up to 3 conversions): every conversion must agree with "
+              "the dense kernels for the coordinates the object has at that moment"),
     Facet("layout_grid", check_convert, enumerate=enumerate_grid, exhaustive_in=("quick", "thorough"),
           quick=(4, 0), thorough=(16, 0), min_nontrivial=0.3,
           doc="6 fixed layouts x 4 grids x 3 event dtypes x every origin/target pair"),
